@@ -363,7 +363,7 @@ fn any_idref(n: u8) -> impl Strategy<Value = IdRef> {
         1 => Just(IdRef::Nil),
         2 => (0..n, 1u8..5).prop_map(|(c, b)| IdRef::Ancestor(c, b)),
         1 => (0..n).prop_map(IdRef::Base),
-        1 => (0u32..5).prop_map(IdRef::Fresh),
+        1 => (0u32..8).prop_map(IdRef::Fresh),
     ]
 }
 
@@ -681,7 +681,7 @@ pub fn check_limit_binary(lc: &LimitCase, st: &mut Stats) -> CheckResult {
         let l = std::net::TcpListener::bind("127.0.0.1:0").map_err(|e| Fail::Inconclusive(format!("no loopback port: {e}")))?;
         let port = l.local_addr().unwrap().port();
         drop(l);
-        let launch = crate::props::binary::Launch { args: vec!["--data-dir".into(), dir.path().to_string_lossy().into_owned(), "--listen".into(), format!("127.0.0.1:{port}")], env: vec![], connect: vec![format!("127.0.0.1:{port}").parse().unwrap()] };
+        let launch = crate::props::binary::Launch { args: vec!["--data-dir".into(), dir.path().to_string_lossy().into_owned(), "--listen".into(), format!("127.0.0.1:{port}")], env: vec![], connect: vec![format!("127.0.0.1:{port}").parse().unwrap()], cwd: None };
         if let Ok(p) = crate::props::binary::spawn(&bin, &launch) {
             proc = Some(p);
             break;
@@ -735,6 +735,51 @@ pub fn check_limit_binary(lc: &LimitCase, st: &mut Stats) -> CheckResult {
     }
     st.label(&format!("binary-limit{:+}:{}", lc.delta, resp.status));
     st.nontrivial(&("binary-limit", lc.snapshot, lc.delta, lc.sizes.is_empty()));
+    Ok(())
+}
+
+/// Refusals must not wear the server out: after a run of refused oversized uploads (multi-chunk,
+/// both endpoints), a valid upload of exactly the limit and a small one are still served.
+#[derive(Clone, Debug, Serialize, Deserialize, PartialEq, Eq, Hash)]
+pub struct RepeatCase {
+    pub backend: Backend,
+    pub refusals: u8,
+}
+
+pub fn check_repeated_refusals(rc: &RepeatCase, st: &mut Stats) -> CheckResult {
+    let cfg = case::Cfg::default();
+    let mut drv = Driver::new(rc.backend, Via::Http, &cfg).map_err(|e| Fail::Violation(format!("opening storage: {e:#}")))?;
+    let c = case::client_uuid(15, 2);
+    let mut latest = match drv.add_version(c, Uuid::nil(), b"x") {
+        Outcome::Accepted { id, .. } => id,
+        o => return v(format!("setting up: {}", o.short())),
+    };
+    let over = Bytes::from(BytesSpec { len: (LIMIT + 1) as u32, class: 0, seed: 1 }.expand());
+    let before = drv.dump(&[c], &[latest]).map_err(|e| Fail::Violation(format!("dump: {e:#}")))?;
+    for k in 0..rc.refusals {
+        let chunks = cut(&over, &[1 << 20]);
+        let req = if k % 2 == 0 { crate::driver::req_add_version(c, latest, chunks) } else { crate::driver::req_add_snapshot(c, latest, chunks) };
+        let resp = drv.http_call(req);
+        st.check();
+        if resp.crashed.is_some() || !(400..500).contains(&resp.status) {
+            return v(format!("oversized upload #{k} (limit+1 bytes in 1 MiB chunks) was answered {} ({:?}); it must be refused with a 4xx every time", resp.status, resp.crashed));
+        }
+    }
+    let after = drv.dump(&[c], &[latest]).map_err(|e| Fail::Violation(format!("dump: {e:#}")))?;
+    if let Some(d) = diff_dumps(&before, &after) {
+        return v(format!("{} refused oversized uploads changed stored state: {d}", rc.refusals));
+    }
+    // and the server still serves
+    let exact = BytesSpec { len: LIMIT as u32, class: 2, seed: 2 }.expand();
+    for (what, body) in [("a small upload", b"small".to_vec()), ("an upload of exactly the limit", exact)] {
+        st.check();
+        match drv.add_version(c, latest, &body) {
+            Outcome::Accepted { id, .. } => latest = id,
+            o => return v(format!("after {} refused oversized uploads, {what} was answered {}", rc.refusals, o.short())),
+        }
+    }
+    st.nontrivial(rc);
+    st.label("c15:repeated-refusals-then-valid");
     Ok(())
 }
 
@@ -807,6 +852,14 @@ fn check_twin(tc: &TCase, st: &mut Stats) -> CheckResult {
     hh.drv.log_body_limit = usize::MAX;
     // a right media type may carry parameters (RFC 9110 8.3.1); they do not change what the
     // request is, so the outcome must still be the library's
+    // likewise every text form of an id that the server's id parser takes names the same id
+    hh.drv.id_style = match case.salt % 10 {
+        3 => 1,
+        5 => 2,
+        7 => 3,
+        9 => 4,
+        _ => 0,
+    };
     hh.drv.ct_params = match case.salt % 6 {
         0 => Some("; charset=utf-8".to_string()),
         1 => Some(";v=1".to_string()),
@@ -1188,6 +1241,52 @@ fn check_allow(ac: &ACase, st: &mut Stats) -> CheckResult {
         st.label(&format!("c16:raw:{}:{}", if names_unlisted { "unlisted" } else { "malformed-id" }, resp.status));
         st.nontrivial(&("c16-raw", ac.allow, r.route, r.cid, b.reasons.clone()));
     }
+    // a request that carries X-Client-Id twice, a listed and an unlisted id in either order:
+    // whichever policy the server follows, it must not act for (or reveal data of) the unlisted one
+    if let Some(l) = &listed {
+        let listed_ids: Vec<Uuid> = ha.clients.iter().copied().filter(|c| l.contains(c)).collect();
+        let unlisted_ids: Vec<Uuid> = ha.clients.iter().copied().filter(|c| !l.contains(c)).collect();
+        if let (Some(li), Some(un)) = (listed_ids.first().copied(), unlisted_ids.iter().copied().find(|u| !ha.model.client(*u).chain.is_empty()).or(unlisted_ids.first().copied())) {
+            let mu = ha.model.client(un);
+            for order in 0..2 {
+                for ep in 0..4 {
+                    let first = if order == 0 { li } else { un };
+                    let second = if order == 0 { un } else { li };
+                    let mut req = match ep {
+                        0 => crate::driver::req_add_version(first, mu.latest(), vec![Bytes::from_static(b"dup")]),
+                        1 => crate::driver::req_get_child(first, mu.base()),
+                        2 => crate::driver::req_add_snapshot(first, mu.latest(), vec![Bytes::from_static(b"dupsnap")]),
+                        _ => crate::driver::req_get_snapshot(first),
+                    };
+                    req.headers.insert(1, ("X-Client-Id".into(), second.to_string().into_bytes()));
+                    let others: Vec<Uuid> = vec![un];
+                    let ids = ha.ids.clone();
+                    let before = ha.drv.api_dump(&others, &ids).map_err(|e| Fail::Violation(format!("dump: {e:#}")))?;
+                    let resp = ha.drv.http_call(req.clone());
+                    let after = ha.drv.api_dump(&others, &ids).map_err(|e| Fail::Violation(format!("dump: {e:#}")))?;
+                    st.check();
+                    let what = format!("{} {} with two X-Client-Id headers ({} first, {} second; list {:?})", req.method, req.path, if order == 0 { "listed" } else { "unlisted" }, if order == 0 { "unlisted" } else { "listed" }, ac.allow);
+                    if resp.crashed.is_some() || resp.status >= 500 {
+                        return v(format!("{what}: answered {} {:?}", resp.status, resp.crashed));
+                    }
+                    if before != after {
+                        return v(format!("{what}: the stored state of the unlisted client changed"));
+                    }
+                    if resp.status == 200 && (ep == 1 || ep == 3) {
+                        // a read that is served must be the listed client's own answer
+                        let mut solo = req.clone();
+                        solo.headers.retain(|(n, val)| !(n.eq_ignore_ascii_case("x-client-id") && val == un.to_string().as_bytes()));
+                        let want = ha.drv.http_call(solo);
+                        if want.status != resp.status || want.header_str("X-Version-Id") != resp.header_str("X-Version-Id") || want.body != resp.body {
+                            return v(format!("{what}: answered 200 with something other than the listed client's own answer (version {:?}; the listed client alone gets {} {:?})", resp.header_str("X-Version-Id"), want.status, want.header_str("X-Version-Id")));
+                        }
+                    }
+                    st.label(&format!("c16:two-client-id-headers:{}", resp.status));
+                    st.nontrivial(&("c16-dup", ac.allow, order, ep, resp.status));
+                }
+            }
+        }
+    }
     st.sample(|| serde_json::json!({"backend": format!("{:?}", ac.backend), "allow": format!("{:?}", ac.allow), "prefix_ops": ac.prefix.ops.len(), "ops": ac.ops, "raw": ac.reqs.len()}));
     Ok(())
 }
@@ -1206,6 +1305,7 @@ pub fn run(id: &str, tier: Tier, seed: u64) -> Report {
             );
             rep.assume("the library twin performs the documented create-on-AddVersion for unknown clients");
             rep.assume("a third of the histories send the right media type with a parameter (; charset=utf-8, ;v=1): parameters do not change the media type, so the outcome must still be the library's (C15 neither requires nor forbids refusing such requests; C14 compares with the library)");
+            rep.assume("four histories in ten write ids (path and X-Client-Id) in another text form the id parser takes - upper case, simple, braced, urn; they name the same id, so the outcome must be the library's");
             let r = engine::replay_dir::<TCase, _>("C14", "twin", check_twin);
             rep.absorb("replay-tier", r);
             if rep.failed() {
@@ -1273,6 +1373,12 @@ pub fn run(id: &str, tier: Tier, seed: u64) -> Report {
             let mut r = engine::enumerate_n(idn, "limit", 6, cases, |c, st| check_limit(c, mode == Mode::C20, st));
             r.exhaustive = false;
             rep.absorb("size-limit", r);
+            if mode == Mode::C15 && !rep.failed() {
+                let cases = vec![RepeatCase { backend: Backend::Mem, refusals: tier.pick(6, 12) }, RepeatCase { backend: Backend::Sqlite, refusals: tier.pick(5, 9) }];
+                let mut r = engine::enumerate_n("C15", "repeat", 2, cases, check_repeated_refusals);
+                r.exhaustive = false;
+                rep.absorb("repeated-refusals-then-valid-uploads", r);
+            }
             if mode == Mode::C15 && !rep.failed() && crate::props::binary::server_bin().is_some() {
                 let mut cases = vec![];
                 for snapshot in [false, true] {
@@ -1350,7 +1456,7 @@ fn check_sock_c20(sc: &SCase20, st: &mut Stats) -> CheckResult {
             let mut a = args.clone();
             a.push("--listen".into());
             a.push(format!("127.0.0.1:{port}"));
-            let launch = crate::props::binary::Launch { args: a, env: vec![], connect: vec![format!("127.0.0.1:{port}").parse().unwrap()] };
+            let launch = crate::props::binary::Launch { args: a, env: vec![], connect: vec![format!("127.0.0.1:{port}").parse().unwrap()], cwd: None };
             if let Ok(p) = crate::props::binary::spawn(&bin, &launch) {
                 started = Some(p);
                 break;
@@ -1536,6 +1642,7 @@ pub fn replay(id: &str, kind: &str, case_json: &Value, st: &mut Stats) -> CheckR
         ("C14", "twin") => check_twin(&serde_json::from_value(case_json.clone()).map_err(bad)?, st),
         ("C15", "raw") => check_raw(&serde_json::from_value(case_json.clone()).map_err(bad)?, Mode::C15, st),
         ("C20", "raw") => check_raw(&serde_json::from_value(case_json.clone()).map_err(bad)?, Mode::C20, st),
+        ("C15", "repeat") => check_repeated_refusals(&serde_json::from_value(case_json.clone()).map_err(bad)?, st),
         ("C15", "limit-binary") => check_limit_binary(&serde_json::from_value(case_json.clone()).map_err(bad)?, st),
         ("C15", "limit") => check_limit(&serde_json::from_value(case_json.clone()).map_err(bad)?, false, st),
         ("C20", "limit") => check_limit(&serde_json::from_value(case_json.clone()).map_err(bad)?, true, st),
